@@ -1609,6 +1609,21 @@ def u_cert(ctx, u):
                         'serial': f['serial'].hex(), 'validity': [f['nb'], f['na']], 'signer_id_len': len(iss.ident)})
         free_specs(specs)
         f['subj'].free()
+    # the self-signed CA certificate itself, given as its own CA certificate: the same key / ID / bit-flip matrix
+    try:
+        ca_parsed = P.parse_cert(iss.cacert)
+    except Exception:
+        ca_parsed = None
+    verify_matrix(ctx, 'cert', iss.cacert, iss.party, iss.ident, vers)
+    if ca_parsed is not None and u['flips']:
+        idb, tv = tamper_verifiers_cert(ctx, iss)
+        # the tampered copy is verified against the untouched CA certificate and against itself
+        lib_ = ctx.lib
+        idl_ = len(iss.ident)
+        tv = tv + [('x509_cert_verify_by_ca_cert:self', lambda b, n: lib_.x509_cert_verify_by_ca_cert(b, n, b, n, idb, idl_), tv[0][2])]
+        tamper(ctx, 'cert', iss.cacert, ca_parsed, tv, False, max(60, u['flips'] // 4))
+        idb.free()
+    ctx.stat('self_signed_matrices')
     alg_mismatch_case(ctx, env, iss)
     ctx.stat('certs_issued', issued)
     if issued == 0:
